@@ -12,7 +12,7 @@ PROPERTY = "C03"
 RULE = (
     "medium diagrams of 6..10 (thorough ..16) bars (Weyl family, lattice-rounded and generic) in 4 arrangements; ALL multisets of <= n bars with integer endpoints in {0..G}, b<d (nested, overlapping, disjoint, "
     "touching, equal births/deaths, repeated bars); per diagram: every row order (n<=3; reversal and "
-    "rotation beyond), exact integer translations by -1,-2,-3,-5 and 2^20 (negative births, births at exactly 0), 4 affine variants, int array, hom_deg 0/1 with a decoy diagram in the other slot. "
+    "rotation beyond), exact integer translations by -1,-2,-3,-5 and 2^20 (negative births, births at exactly 0), 4 affine variants, int array (also int8/uint8/int16/uint16 near the top of their range), nested lists, a trailing infinite bar, deferred computation (compute=False) triggered by compute_landscape(verbose=True) / compute_landscape_by_depth / indexing, hom_deg 0/1 with a decoy diagram in the other slot. "
     "Oracle: for every depth k=1..n+1 persim's PL function vs the k-th largest tent, exact rational "
     "arithmetic, on the union of persim's abscissae and all births/deaths/midpoints/crossings and "
     "outside both ends (both sides are linear in between, so this is equality for all real t). "
@@ -48,14 +48,33 @@ def trace_list():
     return getattr(mod, "_VERIF_TRACE", None)
 
 
-def build(ctx, dgms, hom_deg):
+def build(ctx, dgms, hom_deg, mode="eager"):
+    """mode: 'eager' (default construction) | 'verbose' (compute=False, then compute_landscape(verbose=True))
+    | 'by-depth' (compute=False, the landscape is first asked for through compute_landscape_by_depth)
+    | 'getitem' (compute=False, first access through indexing)."""
+    import contextlib
+    import io
+
     from persim import PersLandscapeExact
 
     tr = trace_list()
     if tr is not None:
         del tr[:]
     ctx.trans()
-    pl = PersLandscapeExact(dgms=dgms, hom_deg=hom_deg)
+    if mode == "eager":
+        pl = PersLandscapeExact(dgms=dgms, hom_deg=hom_deg)
+    else:
+        pl = PersLandscapeExact(dgms=dgms, hom_deg=hom_deg, compute=False)
+        with contextlib.redirect_stdout(io.StringIO()):
+            if mode == "verbose":
+                pl.compute_landscape(verbose=True)
+            elif mode == "by-depth":
+                first = pl.compute_landscape_by_depth(0)
+            else:
+                first = pl[0]
+        if mode in ("by-depth", "getitem") and first != pl.critical_pairs[0]:
+            ctx.violation("landscape-accessor", "%s of a deferred landscape returns something else than critical_pairs[0]" % mode,
+                          observed=first, expected=pl.critical_pairs[0])
     cp = pl.critical_pairs
     if tr is not None:
         fired = [i for tag, i in tr if tag == "dup_shortcut"]
@@ -114,6 +133,8 @@ def run_medium(case, ctx):
     for what, Dv in (("as generated", D), ("reversed", D[::-1]), ("rotated", D[3:] + D[:3]), ("translated by -6", [[b - 6.0, d - 6.0] for b, d in D])):
         _, cp, fc = build(ctx, [np.array(Dv, dtype=float)], 0)
         compare(ctx, Dv, cp, fc, tol, "medium diagram (%s)" % what, "landscape-value-medium")
+    _, cp, fc = build(ctx, [np.array(D[::-1], dtype=float)], 0, mode="verbose")
+    compare(ctx, D[::-1], cp, fc, tol, "medium diagram (deferred, verbose)", "landscape-value-medium")
     ctx.nontriv("medium_diagram_%d_bars" % len(D))
     ctx.outcome(("medium", case["n"], case["k"], case["lattice"]))
 
@@ -145,6 +166,20 @@ def run_case(case, ctx):
     decoy = np.array([[0.0, 9.0], [1.0, 2.0], [0.5, 0.75]])
     _, cpi, fci = build(ctx, [np.array(D, dtype=int)], 0)
     compare(ctx, D, cpi, fci, 0, "int array", "landscape-value-container")
+    # narrow / unsigned integer dtypes with values near the top of their range (b + d must not wrap)
+    for dt, kk in ((np.int8, 25), (np.uint8, 50), (np.int16, 6000), (np.uint16, 13000)):
+        Dk = [[b * kk, dd * kk] for b, dd in D]
+        _, cpk, fck = build(ctx, [np.array(Dk, dtype=dt)], 0)
+        compare(ctx, Dk, cpk, fck, 0, "%s array x %d" % (np.dtype(dt), kk), "landscape-value-int-dtype")
+    # nested lists; deferred computation (compute=False) triggered by each public accessor, verbose sweep
+    _, cpl, fcl = build(ctx, [[list(p) for p in D]], 0)
+    compare(ctx, D, cpl, fcl, 0, "nested lists", "landscape-value-container")
+    for mode in ("verbose", "by-depth", "getitem"):
+        _, cpm, fcm = build(ctx, [np.array(D[::-1], dtype=float)], 0, mode=mode)
+        compare(ctx, D[::-1], cpm, fcm, 0, "deferred computation, %s" % mode, "landscape-value-deferred")
+    # a trailing infinite bar (ripser's H0 layout) is dropped
+    _, cpf, fcf = build(ctx, [np.array(D + [[0.0, float("inf")]], dtype=float)], 0)
+    compare(ctx, D, cpf, fcf, 0, "trailing infinite bar", "landscape-value-inf")
     _, cp0, fc0 = build(ctx, [np.array(D, dtype=float), decoy], 0)
     compare(ctx, D, cp0, fc0, 0, "hom_deg=0 of [D, decoy]", "landscape-value-homdeg")
     _, cp1, fc1 = build(ctx, [decoy, np.array(D, dtype=float)], 1)
